@@ -90,8 +90,8 @@ macro "bookf" hn:term : tactic =>
 /-- conversions coin ↔ ERC-20 of a pair whose denomination is not an alias of `d`, and which is module-owned whenever it
 is `d`'s own pair, do not touch the family book of `d` -/
 theorem bookF_convertCoinU (d : Nat) (as : List Nat) (hn : as.Nodup) (k : Kind) (d' ct' : Nat)
-    (hd : d' ∉ as) (hk : d' = d → k ≠ .externalOwned) (s r n : Nat) :
-    (bookF d as).flowDelta (convertCoinU k d' ct' (.user s) (.user r) n) = 0 := by
+    (hd : d' ∉ as) (hk : d' = d → k ≠ .externalOwned) (s : Nat) (r : Addr) (n : Nat) :
+    (bookF d as).flowDelta (convertCoinU k d' ct' (.user s) r n) = 0 := by
   by_cases e : d' = d
   · have := hk e
     subst e
@@ -100,8 +100,8 @@ theorem bookF_convertCoinU (d : Nat) (as : List Nat) (hn : as.Nodup) (k : Kind) 
     cases k <;> bookf hn
 
 theorem bookF_convertERC20U (d : Nat) (as : List Nat) (hn : as.Nodup) (k : Kind) (d' ct' : Nat)
-    (hd : d' ∉ as) (hk : d' = d → k ≠ .externalOwned) (s r n : Nat) :
-    (bookF d as).flowDelta (convertERC20U k d' ct' (.user s) (.user r) n) = 0 := by
+    (hd : d' ∉ as) (hk : d' = d → k ≠ .externalOwned) (s : Nat) (r : Addr) (n : Nat) :
+    (bookF d as).flowDelta (convertERC20U k d' ct' (.user s) r n) = 0 := by
   by_cases e : d' = d
   · have := hk e
     subst e
@@ -203,47 +203,33 @@ theorem bookF_stepU (s s' : UState) (hi : IdxInv s.idx) (id : PairId) (p : Pair)
     · exact hnotal d' hr hin
   cases op with
   | convertCoin d u r n =>
-    simp only [stepU] at h
-    split at h; · cases h
-    rename_i p' hme
-    obtain ⟨id', hl', hp'⟩ := pairByDenom_some (mintingEnabled_ok hme)
+    obtain ⟨p', hpd, _, hcase⟩ := stepU_convertCoin_ok s s' d u r n h
+    obtain ⟨id', hl', hp'⟩ := pairByDenom_some hpd
     have hd' : p'.denom = d := by
       obtain ⟨q, hq, hqd⟩ := hi.byDenom_ok _ _ hl'
       rw [hp'] at hq; cases hq; exact hqd
-    split at h
-    · cases h; rfl
-    · simp only [UState.withLedger] at h
-      split at h
-      · rename_i L' hrun
-        cases h
-        rw [runFlow_obs (bookF_sound _ _) _ _ _ hrun]
-        rw [bookF_convertCoinU _ _ hn' _ _ _ (hnotal d (by rw [hl']; rfl))]
-        · omega
-        · intro e
-          rcases pairs_eq_or_disjoint hi hp hp' with ⟨_, rfl⟩ | ⟨hnd, _⟩
-          · exact hkind
-          · exact absurd (hd'.trans e) hnd
-      · cases h
+    rcases hcase with ⟨_, rfl⟩ | ⟨_, L', hrun, rfl⟩
+    · rfl
+    · rw [runFlow_obs (bookF_sound _ _) _ _ _ hrun]
+      rw [bookF_convertCoinU _ _ hn' _ _ _ (hnotal d (by rw [hl']; rfl))]
+      · omega
+      · intro e
+        rcases pairs_eq_or_disjoint hi hp hp' with ⟨_, rfl⟩ | ⟨hnd, _⟩
+        · exact hkind
+        · exact absurd (hd'.trans e) hnd
   | convertERC20 ct u r n =>
-    simp only [stepU] at h
-    split at h; · cases h
-    rename_i p' hme
-    obtain ⟨id', hl', hp'⟩ := pairByErc_some (mintingEnabled_ok hme)
+    obtain ⟨p', hpe, _, hcase⟩ := stepU_convertERC20_ok s s' ct u r n h
+    obtain ⟨id', hl', hp'⟩ := pairByErc_some hpe
     obtain ⟨_, hden', _⟩ := hi.pairs_ok _ _ hp'
-    split at h
-    · cases h; rfl
-    · simp only [UState.withLedger] at h
-      split at h
-      · rename_i L' hrun
-        cases h
-        rw [runFlow_obs (bookF_sound _ _) _ _ _ hrun]
-        rw [bookF_convertERC20U _ _ hn' _ _ _ (hnotal _ (by rw [hden']; rfl))]
-        · omega
-        · intro e
-          rcases pairs_eq_or_disjoint hi hp hp' with ⟨_, rfl⟩ | ⟨hnd, _⟩
-          · exact hkind
-          · exact absurd e hnd
-      · cases h
+    rcases hcase with ⟨_, rfl⟩ | ⟨_, L', hrun, rfl⟩
+    · rfl
+    · rw [runFlow_obs (bookF_sound _ _) _ _ _ hrun]
+      rw [bookF_convertERC20U _ _ hn' _ _ _ (hnotal _ (by rw [hden']; rfl))]
+      · omega
+      · intro e
+        rcases pairs_eq_or_disjoint hi hp hp' with ⟨_, rfl⟩ | ⟨hnd, _⟩
+        · exact hkind
+        · exact absurd e hnd
   | convertDenom d u r n tgt =>
     simp only [stepU] at h
     split at h; · cases h
